@@ -46,6 +46,11 @@ func genOne(t *rapid.T, cx *h.Ctx, allowFloat bool) OneCase {
 		g = cpx.Geom(t, typ, 0, true, nil)
 		m = gen.DrawIntMap(t, -3, 2*kmax+3)
 	}
+	// repeated consecutive vertices (valid: zero-length segments carry no points of their own) at drawn places
+	// of drawn lines and rings - first, middle, last/closing, once or twice
+	if rapid.IntRange(0, 3).Draw(t, "dups") == 0 {
+		g = dupVertices(g, rapid.SliceOfN(rapid.IntRange(0, 40), 1, 6).Draw(t, "dupseeds"))
+	}
 	c := OneCase{G: m.Apply(g), Family: "lattice", Shape: shape, Aff: [6]float64{1, 0, 0, 0, 1, 0}}
 	if allowFloat && rapid.IntRange(0, 3).Draw(t, "floatfamily") == 0 {
 		c.Family = "float"
@@ -71,6 +76,9 @@ func genOne(t *rapid.T, cx *h.Ctx, allowFloat bool) OneCase {
 // intervals lands in a gap or a hole.  Returned as Polygon, one-member MultiPolygon, MultiPolygon with a
 // second far member, or a collection with a point.
 func genComb(t *rapid.T) gm.G {
+	if rapid.IntRange(0, 3).Draw(t, "notch") == 0 {
+		return genNotch(t)
+	}
 	n := rapid.IntRange(2, 5).Draw(t, "teeth")
 	var xs, ws, hs []int
 	x := 0
@@ -115,6 +123,81 @@ func genComb(t *rapid.T) gm.G {
 		return gm.G{T: gm.MultiPolygon, Mem: []gm.G{far, poly}}
 	default:
 		return gm.G{T: gm.GeometryCollection, Mem: []gm.G{{T: gm.Point, Co: gm.Fs(float64(W+3), 3)}, poly}}
+	}
+}
+
+// dupVertices repeats vertices of the lines and rings of g: sequence k uses seeds[k mod len]; 0 leaves it alone,
+// otherwise vertex (seed mod n) is written twice (seed odd) or three times (seed even).
+func dupVertices(g gm.G, seeds []int) gm.G {
+	k := 0
+	dup := func(fs []gm.F, d int) []gm.F {
+		sd := seeds[k%len(seeds)]
+		k++
+		n := len(fs) / d
+		if sd == 0 || n == 0 {
+			return fs
+		}
+		i := sd % n
+		reps := 1 + (sd+1)%2
+		out := append([]gm.F{}, fs[:(i+1)*d]...)
+		for r := 0; r < reps; r++ {
+			out = append(out, fs[i*d:(i+1)*d]...)
+		}
+		return append(out, fs[(i+1)*d:]...)
+	}
+	var rec func(n gm.G) gm.G
+	rec = func(n gm.G) gm.G {
+		n = n.Norm()
+		d := gm.Dim(n.CT)
+		out := n
+		if n.T == gm.LineString && len(n.Co) > 0 {
+			out.Co = dup(n.Co, d)
+		}
+		if n.Rings != nil {
+			out.Rings = make([][]gm.F, len(n.Rings))
+			for i, r := range n.Rings {
+				out.Rings[i] = dup(r, d)
+			}
+		}
+		if n.Mem != nil {
+			out.Mem = make([]gm.G, len(n.Mem))
+			for i, m := range n.Mem {
+				out.Mem[i] = rec(m)
+			}
+		}
+		return out
+	}
+	return rec(g)
+}
+
+// genNotch: a slab with a U-shaped hole (a rectangle with a notch of drawn depth and width cut into one side)
+// and a second, wedge-shaped hole whose tip reaches into the notch without touching it.  The polygon is valid;
+// any simplification that removes the notch (threshold >= its depth) makes the first hole swallow the tip of
+// the second: the result must then be an error, not an invalid polygon.  The mirror image (a spur of the shell
+// reaching into a notch of a hole) is drawn as well.
+func genNotch(t *rapid.T) gm.G {
+	depth := float64(rapid.IntRange(1, 3).Draw(t, "notchdepth"))
+	half := float64(rapid.IntRange(1, 2).Draw(t, "notchhalf")) // half width of the notch
+	// hole A: [2,10] x [2,14] with a notch on its right side around y = 8
+	a := gm.Fs(2, 2, 10, 2, 10, 8-half, 10-depth, 8-half, 10-depth, 8+half, 10, 8+half, 10, 14, 2, 14, 2, 2)
+	// hole B: a wedge from the right whose tip sits inside the notch
+	tipx := 10 - depth + float64(rapid.IntRange(1, 2).Draw(t, "tipin"))/2
+	if tipx >= 10 {
+		tipx = 10 - depth/2
+	}
+	b := gm.Fs(tipx, 8, 16, 8-half/2, 16, 8+half/2, tipx, 8)
+	shell := gm.Fs(0, 0, 20, 0, 20, 16, 0, 16, 0, 0)
+	poly := gm.G{T: gm.Polygon, Rings: [][]gm.F{shell, a, b}}
+	if rapid.Bool().Draw(t, "notchswap") {
+		poly.Rings[1], poly.Rings[2] = poly.Rings[2], poly.Rings[1]
+	}
+	switch rapid.IntRange(0, 2).Draw(t, "notchwrap") {
+	case 0:
+		return poly
+	case 1:
+		return gm.G{T: gm.MultiPolygon, Mem: []gm.G{poly}}
+	default:
+		return gm.G{T: gm.GeometryCollection, Mem: []gm.G{{T: gm.Point, Co: gm.Fs(30, 3)}, poly}}
 	}
 }
 
